@@ -13,6 +13,7 @@ import (
 
 	"verif/mc"
 
+	"github.com/evanoberholster/imagemeta"
 	"github.com/evanoberholster/imagemeta/imagetype"
 )
 
@@ -219,6 +220,12 @@ func (r raOnly) ReadAt(p []byte, off int64) (int, error) { return r.r.ReadAt(p, 
 
 // raEOF is a ReaderAt that reports io.EOF together with the last bytes of the source, as the
 // io.ReaderAt contract allows ("may return either err == EOF or err == nil" when n == len(p)).
+// seekOnly hides every method of the source but Read and Seek
+type seekOnly struct{ r *bytes.Reader }
+
+func (s seekOnly) Read(p []byte) (int, error)         { return s.r.Read(p) }
+func (s seekOnly) Seek(o int64, w int) (int64, error) { return s.r.Seek(o, w) }
+
 type raEOF struct{ b []byte }
 
 func (r raEOF) ReadAt(p []byte, off int64) (int, error) {
@@ -506,6 +513,50 @@ func init() {
 		x.Outcome = fmt.Sprint(len(fs.order))
 		fs.flush(x, n)
 	}
+	// (6) Decode sniffs the stream it is given: a ReadSeeker that stands behind other bytes (a second image in a file, an
+	// image behind a wrapper header) is classified and decoded like the same bytes alone
+	h6 := func(x *mc.Exec) {
+		ss := seeds()
+		s := ss[x.All("seed", len(ss))]
+		pi := x.All("prefix", len(hs)+2)
+		var pre []byte
+		switch {
+		case pi < len(hs):
+			pre = append(append([]byte{}, hs[pi]...), bytes.Repeat([]byte{0}, 8)...)
+		case pi == len(hs):
+			pre = bytes.Repeat([]byte{'x'}, 100)
+		default:
+			pre = bytes.Repeat([]byte{0xff}, 4096)
+		}
+		hide := x.All("hide-ReaderAt", 2) == 1
+		pristine()
+		ref := runDecode(imagemeta.Decode, s.doc.B)
+		pristine()
+		whole := append(append([]byte{}, pre...), s.doc.B...)
+		var got decodeResult
+		run := func(r io.ReadSeeker) {
+			r.Seek(int64(len(pre)), io.SeekStart)
+			got = runDecodeReader(imagemeta.Decode, r)
+		}
+		if hide {
+			run(seekOnly{bytes.NewReader(whole)})
+		} else {
+			run(bytes.NewReader(whole))
+		}
+		a, b := exifOutcome(ref.Exif, ref.Err), exifOutcome(got.Exif, got.Err)
+		if ref.Panic != nil {
+			a = "PANIC " + ref.Panic.Signature()
+		}
+		if got.Panic != nil {
+			b = "PANIC " + got.Panic.Signature()
+		}
+		if a != b {
+			x.Fail("mismatch|imagemeta.Decode|positioned-reader", fmt.Sprintf("Decode of seed %s through a ReadSeeker standing at offset %d (behind %d other bytes) returns %s ; the same bytes alone give %s", s.name, len(pre), len(pre), truncStr(b, 300), truncStr(a, 300)),
+				map[string]string{"seed": s.name, "prefix_hex": hexInput(pre)})
+		}
+		x.InputID = hashBytes([]byte(fmt.Sprint(s.name, pi, hide)))
+		x.Outcome = s.kind
+	}
 	register(&mc.Check{
 		Property: "C09",
 		Spaces: func(tier string) []mc.Space {
@@ -515,6 +566,7 @@ func init() {
 				{Name: "lengths-and-suffixes", H: h4, NoLevels: true, Rule: "canonical header x every length 0..24 x suffix menu (1 byte, 4 KiB of 0xFF, two foreign headers, and every signature token any predicate looks for placed at bytes 24.., 28.. and repeated)"},
 			}
 			sp = append(sp, mc.Space{Name: "three-byte-prefixes", H: h5, NoLevels: true, Rule: "all 2^24 values of bytes 0..2 in front of 4 fixed rests (filler, a TIFF header at 3, the rest of an ftyp box, the rest of a JFIF header): Buf against the table, and the 24-byte window must come back unchanged"})
+			sp = append(sp, mc.Space{Name: "decode-on-a-positioned-reader", H: h6, NoLevels: true, Rule: "every seed behind every canonical header of another format, behind 100 filler bytes and behind 4096 bytes of 0xFF, handed to imagemeta.Decode as a ReadSeeker standing at the start of the seed (with and without a ReadAt method): type, record and error equal those of the seed alone"})
 			if tier == "thorough" {
 				sp = append(sp, mc.Space{Name: "two-byte-perturbations", H: h2(false), NoLevels: true, Rule: "canonical header x every position pair x all 65536 value pairs, Buf against the table"})
 			} else {
